@@ -1,5 +1,6 @@
 """STIX2 core serialization methods."""
 
+import collections.abc
 import datetime as dt
 import io
 
@@ -51,8 +52,16 @@ def _selected_defaults(obj):
     contains: (id of the containing object, property name) pairs.
     """
     selected = set()
-    for marking in obj.get("granular_markings") or []:
-        for selector in marking.get("selectors") or []:
+    markings = obj.get("granular_markings")
+    if not isinstance(markings, (list, tuple)):
+        # (as a custom property of a type without markings it may be anything)
+        return selected
+    for marking in markings:
+        selectors = marking.get("selectors") \
+            if isinstance(marking, collections.abc.Mapping) else None
+        if not isinstance(selectors, (list, tuple)):
+            continue
+        for selector in selectors:
             current = obj
             for step in str(selector).split("."):
                 if isinstance(current, stix2.base._STIXBase) \
